@@ -607,7 +607,8 @@ REGISTRY = {
                 rule="case = document from a recursive generator (depth <= 6, fan-out <= 40; objects, arrays, literals, integers at every width "
                      "boundary in all six integer types, doubles, strings, opaque DATE/TIME (both signs)/DATETIME/DECIMAL), every scalar also at "
                      "top level and inlined/out-of-line inside small and large containers, forced-large encodings, and real >= 64KB documents"),
-    "C20": dict(mode="c20", trace_module="Trace_Codec", trace_cfg="Trace_Codec.cfg", props=["C20"], block_ev=["case"],
+    "C20": dict(parts=[dict(mode="c20", trace_module="Trace_Codec", trace_cfg="Trace_Codec.cfg", props=["C20"], block_ev=["case"]),
+                       dict(mode="c20s", trace_module="Trace_Stream", trace_cfg="Trace_Stream.cfg", props=["C20"])],
                 mc=[MC_CELLSPEC], assumptions=[
                     "the JSON text is parsed back with encoding/json (projection); the Go value is projected by the same recorder as deliveries",
                     "texts are compared verbatim when they are valid UTF-8 (RFC 3629 validator in TLA+); type names are checked to identify the type "
